@@ -220,6 +220,13 @@ template <class T> static void helpers (uint64_t seed, int count)
             { Rec r ("fn"); r.str ("fn", "ulerp"); r.str ("t", t); r.raw ("a", jlist (std::vector<T>{a, b, tt}.data (), 3)); r.raw ("out", jv (ulerp (a, b, tt))); r.emit (); }
         }
     }
+    // clamp on IEEE specials: NaN in any position, signed zeros, infinities, inverted ranges
+    {
+        const T inf = std::numeric_limits<T>::infinity (), qn = std::numeric_limits<T>::quiet_NaN ();
+        const T sp[] = {(T) 0, -(T) 0, 1, -1, (T) 0.5, 2, std::numeric_limits<T>::max (), std::numeric_limits<T>::denorm_min (), inf, -inf, qn};
+        for (T v : sp) for (T lo : sp) for (T hi : sp)
+        { Rec r ("fn"); r.str ("fn", "clamp"); r.str ("t", t); r.raw ("a", jlist (std::vector<T>{v, lo, hi}.data (), 3)); r.raw ("out", jv (clamp (v, lo, hi))); r.emit (); }
+    }
     // lerpfactor near the overflow guard: |m - a| against max * |b - a|
     const T big = std::numeric_limits<T>::max ();
     const T ds[] = {0, std::numeric_limits<T>::denorm_min (), std::numeric_limits<T>::min (), (T) 1e-30, (T) 1e-10, (T) 0.5, 1, 2};
